@@ -391,14 +391,13 @@ def load_known(pid):
 def signature_matches(k, sig):
     """A finding lists `match`: a dict of field -> regex; all must match the signature dict
     the check computed for the witness (failure mode, call site, input class)."""
-    m = k.get("match") or {}
-    if not m:
-        return False
-    for f, rx in m.items():
-        v = sig.get(f)
-        if v is None or not re.search(rx, str(v)):
-            return False
-    return True
+    alts = list(k.get("match_any") or [])
+    if k.get("match"):
+        alts.append(k["match"])
+    for m in alts:
+        if m and all(sig.get(f) is not None and re.search(rx, str(sig.get(f))) for f, rx in m.items()):
+            return True
+    return False
 
 
 def main_wrapper(fn):
